@@ -806,16 +806,80 @@ func c06Collection(x *mc.Exec) {
 	}
 }
 
+// c06LargeCollection: collections well beyond any small-input fast path (chunked or
+// parallel decoding): every member is stored, in order, with its own values, and
+// one out-of-range member anywhere (first, middle, last) makes the call refuse.
+func c06LargeCollection(x *mc.Exec) {
+	soft := x.Bool("soft")
+	sizes := []int{15, 16, 17, 33, 63, 64, 65, 66, 67, 99, 130, 257, 1001}
+	n := sizes[x.Choose(len(sizes), "members")]
+	bad := x.Choose(4, "ill-typed member") // 0 none, 1 first, 2 middle, 3 last
+	d := TypeD{Name: "t", Attrs: []AttrD{{"s", kStr}, {"i", Kind{j.AttrTypeInt16, false}}}, Rels: []RelD{{"many", false, "u", ""}}}
+	schema := BuildSchema([]TypeD{d, {Name: "u"}}, []bool{soft, true})
+	badAt := map[int]int{0: -1, 1: 0, 2: n / 2, 3: n - 1}[bad]
+	var members []string
+	for i := 0; i < n; i++ {
+		v := fmt.Sprint(i - 7)
+		if i == badAt {
+			v = "70000"
+		}
+		members = append(members, fmt.Sprintf(`{"type":"t","id":"m%04d","attributes":{"s":"v%d","i":%s},"relationships":{"many":{"data":[{"type":"u","id":"u%d"}]}}}`, (i*7919)%n, i, v, i))
+	}
+	payload := "[" + strings.Join(members, ",") + "]"
+	desc := fmt.Sprintf("%s: %d members, ill-typed member at %d", implName(soft), n, badAt)
+	x.Render(desc)
+	x.R.Sample("large-collection", desc)
+	x.R.Mark("nontrivial", mc.Hash(desc))
+	for _, via := range []string{"UnmarshalCollection", "UnmarshalDocument"} {
+		var col j.Collection
+		var err error
+		p := Try(func() {
+			if via == "UnmarshalCollection" {
+				col, err = j.UnmarshalCollection([]byte(payload), schema)
+			} else {
+				var doc *j.Document
+				doc, err = j.UnmarshalDocument([]byte(`{"data":`+payload+`}`), schema)
+				if doc != nil {
+					col, _ = doc.Data.(j.Collection)
+				}
+			}
+		})
+		x.R.Add("transitions", 1)
+		sig := "C06:large-collection:" + via
+		switch {
+		case p != "":
+			x.Fail(sig+":panic", "%s (%s) panicked: %s", via, desc, p)
+		case bad != 0 && err == nil:
+			x.Fail(sig+":out-of-range-accepted", "%s (%s): member %d holds 70000 for an int16 attribute and the collection is accepted", via, desc, badAt)
+		case bad == 0 && (err != nil || col == nil):
+			x.Fail(sig+":rejected-valid", "%s (%s): error %v", via, desc, err)
+		case bad == 0 && col.Len() != n:
+			x.Fail(sig+":length", "%s (%s): %d members stored", via, desc, col.Len())
+		case bad == 0:
+			for i := 0; i < n; i++ {
+				r := col.At(i)
+				wantID := fmt.Sprintf("m%04d", (i*7919)%n)
+				many, _ := r.Get("many").([]string)
+				if r.Get("id") != wantID || r.Get("s") != fmt.Sprint("v", i) || r.Get("i") != int16(i-7) || len(many) != 1 || many[0] != fmt.Sprint("u", i) {
+					x.Fail(sig+":member", "%s (%s): member %d is id=%v s=%v i=%v many=%v", via, desc, i, r.Get("id"), r.Get("s"), r.Get("i"), r.Get("many"))
+					break
+				}
+			}
+		}
+	}
+}
+
 func init() {
 	Register(&Prop{
 		ID: "C06",
-		Rule: "Engine A, all choices Full: (a) 20 integer kinds x every integer literal in [-70000,70000] (exhaustive for 8/16-bit kinds and their out-of-range neighbourhood) + +-2^k+{-2..2} (k<=70) + +-10^k+{-1,0,1} (k<=21) + fractions/exponents/-0/null/true/false/strings/arrays, each through Attr.UnmarshalToType and through UnmarshalResource (soft and struct-backed); (b) string/bool/time/bytes kinds x alphabet in 3 JSON encodings, RFC3339 offsets x precisions, near-miss invalid times, canonical and non-canonical base64 (a decoded byte string must be non-nil: the empty string is not null), wrong JSON kinds; (c) whole payloads: 3^5 attribute presence/value combinations x 5 x 4 forms of two to-one relationships x 7 to-many forms x 3 ids x 2 implementations, also read through UnmarshalPartialResource (every member present holds the same value), re-marshaled and re-read; a reduced product (2 attributes) under every iteration order of one member map inside UnmarshalResource (deviation bound 1). (d) collections of 2-3 members over 6 member variants (full, minimal, partial, empty linkage, other type, no id) through UnmarshalCollection and UnmarshalDocument, each member compared with the same object read alone. Oracle: accepted => stored value equals the math/big / own-unescaper / time.Parse / encoding/base64 reading of the literal; non-trivial = literal that is out of range, fractional, of the wrong kind, or a whole payload",
+		Rule: "Engine A, all choices Full: (a) 20 integer kinds x every integer literal in [-70000,70000] (exhaustive for 8/16-bit kinds and their out-of-range neighbourhood) + +-2^k+{-2..2} (k<=70) + +-10^k+{-1,0,1} (k<=21) + fractions/exponents/-0/null/true/false/strings/arrays, each through Attr.UnmarshalToType and through UnmarshalResource (soft and struct-backed); (b) string/bool/time/bytes kinds x alphabet in 3 JSON encodings, RFC3339 offsets x precisions, near-miss invalid times, canonical and non-canonical base64 (a decoded byte string must be non-nil: the empty string is not null), wrong JSON kinds; (c) whole payloads: 3^5 attribute presence/value combinations x 5 x 4 forms of two to-one relationships x 7 to-many forms x 3 ids x 2 implementations, also read through UnmarshalPartialResource (every member present holds the same value), re-marshaled and re-read; a reduced product (2 attributes) under every iteration order of one member map inside UnmarshalResource (deviation bound 1). (d) collections of 2-3 members over 6 member variants (full, minimal, partial, empty linkage, other type, no id) through UnmarshalCollection and UnmarshalDocument, each member compared with the same object read alone; collections of 15..1001 members, valid or with one out-of-range member first / in the middle / last. Oracle: accepted => stored value equals the math/big / own-unescaper / time.Parse / encoding/base64 reading of the literal; non-trivial = literal that is out of range, fractional, of the wrong kind, or a whole payload",
 		Assumptions: []string{"no completeness demand: exotic spellings may be rejected; only 'accepted => exact' is judged", "a panic counts as not accepted here (panic freedom is C05)"},
 		Harnesses: []Harness{
 			{Name: "C06/int", Body: c06Int, ShardDepth: 1},
 			{Name: "C06/other", Body: c06Other, ShardDepth: 1},
 			{Name: "C06/resource", Body: c06Resource},
 			{Name: "C06/collection", Body: c06Collection},
+			{Name: "C06/large-collection", Body: c06LargeCollection},
 			{Name: "C06/two-schemas", Body: c06TwoSchemas},
 			{Name: "C06/resource-member-order", Body: c06ResourceOrder, Dev: func() int { return 1 }},
 		},
